@@ -283,6 +283,17 @@ impl Monitor for C06 {
                 out.key = format!("{} {} {} {:016x}", obj.name(), name, sh.name(), crate::rng::fnv(&format!("{:?}{:?}", p, t)));
                 out.cover("objective_family_rank", format!("{}/{}/{}", obj.name(), name, if sh.is_flat() { "flat" } else { "3d" }));
                 check_pair(&mut rng, obj, sh, &p, &t, name, interior, &mut out);
+                // the same numbers in the other layout, back to back on this thread: the second
+                // answer must carry the second layout (nothing remembered from the first call)
+                if idx % 4 == 1 {
+                    let other = if sh.is_flat() { factor(&mut rng, n) } else { Sh::Flat(n) };
+                    if let (Ok(a), Ok(b)) = (lib_loss(obj, None, sh, &p, &t), lib_loss(obj, None, other, &p, &t)) {
+                        out.count("back_to_back_calls_in_two_layouts", 1);
+                        if b.2 != sh_dims(other) || !b.3 || a.2 != sh_dims(sh) {
+                            out.viol(&format!("obj:{}:grad:shape:after-other-layout", obj.name()), format!("{}: loss() on shape {:?} directly after the same numbers in shape {:?} returns a gradient of shape {:?}", obj.name(), sh_dims(other), sh_dims(sh), b.2), J::obj().set("prediction", J::f32s(&p)).set("target", J::f32s(&t)));
+                        }
+                    }
+                }
                 if idx < 14 {
                     out.sample = Some(J::obj().set("objective", J::s(obj.name())).set("family", J::s(name)).set("shape", J::s(&sh.name())).set("prediction", J::f32s(&p)).set("target", J::f32s(&t)));
                 }
